@@ -781,10 +781,23 @@ func c19Library(s *sim.Sim, p *sim.Params) {
 		if fi, err := os.Stat(file); err == nil && fi.IsDir() {
 			os.RemoveAll(file)
 		}
-		switch e.kind {
-		case "deleted":
+		blip := !slow && (e.kind == "valid" || e.kind == "recreated") && s.Choose(sim.SFault, 4) == 0
+		switch {
+		case blip:
+			// the save lands just before a poll; the file is briefly absent when the debounce
+			// timer of that poll fires (an editor replacing it, a sync tool), and is back with the
+			// same content before the next poll
+			s.Fault("file-absent-when-debounce-fires")
+			tick := 500 * time.Millisecond
+			s.Sleep(tick - s.Now()%tick - 10*time.Millisecond)
+			put(content, e.mtime)
+			s.Sleep(110 * time.Millisecond)
 			os.Remove(file)
-		case "unreadable":
+			s.Sleep(200 * time.Millisecond)
+			put(content, "")
+		case e.kind == "deleted":
+			os.Remove(file)
+		case e.kind == "unreadable":
 			os.Remove(file)
 			os.Mkdir(file, 0o755)
 		default:
